@@ -220,7 +220,7 @@ impl Property for C07 {
     }
     fn cases(&self, tier: Tier) -> usize {
         match tier {
-            Tier::Quick => 12_000,
+            Tier::Quick => 20_000,
             Tier::Thorough => 300_000,
         }
     }
